@@ -235,11 +235,17 @@ def runStat (E : Env V V) (g : G) : List (Op V) → G × List String
     | .ok g' => let (gf, st) := runStat E g' ops; (gf, "ok" :: st)
     | .error e => let (gf, st) := runStat E g ops; (gf, errTok e :: st)
 
+/-- header, type table, start graph (`-` = the empty graph of a new application, else the dump of the graph the
+    application defines in code), history -/
 def pCase : P (Env V V × G × List (Op V)) := do
   let hdr ← pHdr
   let tys ← pCounted pTy
+  let rest ← get
+  let g0 ← (match rest with
+    | "-" :: r => do set r; pure (Graph.init hdr)
+    | _ => pGraph : P G)
   let ops ← pCounted pOp
-  pure (mkEnv tys, Graph.init hdr, ops)
+  pure (mkEnv tys, g0, ops)
 
 def fixDesc (s : Schema V) : Schema V :=
   -- a value parameter's description decodes from JSON "" as the empty string token
@@ -320,6 +326,17 @@ def handle (op : String) (args : List String) : Option String :=
   | "c12.holds.ports_distinct" => do
     let ((_, ns), _) ← (do let t ← pRaw; let ns ← pCounted pName; pure (t, ns) : P _).run args
     pure (boolStr (allDistinct (ns.map lower) && ns.all (fun n => !n.contains '.' && !n.isEmpty)))
+  | "c12.holds.natural_order" => do
+    -- the hypothesis of `decode_encode` (`CmpOK.arrOrder` + asymmetry), on the implementation's own answers:
+    -- for i < j the comparator says P.i < P.j and not P.j < P.i
+    let ((i, j, lij, lji), _) ← (do let _ ← pName; let _ ← pName; let i ← pNat; let j ← pNat; let a ← tok; let b ← tok
+                                    pure (i, j, a, b) : P _).run args
+    pure (boolStr (decide (i < j) && lij == "true" && lji == "false"))
+  | "c12.holds.param_value_kept" =>
+    match args with
+    | [_, st, before, after, dBefore, dAfter, md] =>
+      some (boolStr (st == hs "ok" && before == after && dBefore == dAfter && md == "true"))
+    | _ => some "false"
   | "c12.holds.param_law" =>
     match args with
     | [_, j1, j2, b1, b2, same, md] => some (boolStr (j1 == j2 && b1 == b2 && same == "true" && md == "true"))
